@@ -8,9 +8,9 @@
 3. TLC validates the recorded observations against the property's predicates (spec/props/C38val.tla) and names
    the defect family of every deviation."""
 import collections
+import json
 import os
 import random
-import threading
 import time
 
 import vlib
@@ -20,7 +20,8 @@ P = os.path.join(vlib.SPEC, "props")
 
 
 def _mc(cfg, workers, timeout):
-    return vlib.tlc(os.path.join(P, "C38mc.tla"), cfg=os.path.join(P, cfg), workers=workers, timeout=timeout)
+    return vlib.tlc(os.path.join(P, "C38mc.tla"), cfg=os.path.join(P, cfg), workers=min(workers, utilchan.TLC_WORKERS),
+                    timeout=timeout, xmx=utilchan.TLC_XMX)
 
 
 def _gen(prop, cfg, workers, timeout, simulate=None, seed=None):
@@ -28,13 +29,15 @@ def _gen(prop, cfg, workers, timeout, simulate=None, seed=None):
     out = os.path.join(wd, "gen_%s.ndjson" % cfg[:-4])
     if os.path.exists(out):
         os.remove(out)
-    res = vlib.tlc(os.path.join(P, "C38.tla"), cfg=os.path.join(P, cfg), workers=workers, env={"OUT": out},
+    res = vlib.tlc(os.path.join(P, "C38.tla"), cfg=os.path.join(P, cfg), workers=min(workers, utilchan.TLC_WORKERS),
+                   xmx=utilchan.TLC_XMX, env={"OUT": out},
                    timeout=timeout, simulate=simulate, depth=(8 if simulate else None), seed=seed)
     vlib.tlc_ok(res, cfg)
     return utilchan.decode_tlc_lines(out), res
 
 
 def _record(case, channel, o):
+    """case + observation in the shape spec/props/C38val.tla reads"""
     steps = []
     for s in o["steps"]:
         if "op" not in s:
@@ -49,39 +52,71 @@ def _record(case, channel, o):
     return rec
 
 
+def _validate(wd, recs):
+    obs_path = os.path.join(wd, "observations.ndjson")
+    vlib.write_ndjson(obs_path, recs)
+    val = vlib.tlc(os.path.join(P, "C38val.tla"), env={"OBS": obs_path}, timeout=900, xmx=utilchan.TLC_XMX)
+    vlib.tlc_ok(val, "C38val")
+    verdicts = val.cases()
+    summary = [v for v in verdicts if v.get("summary")]
+    if not summary or summary[0]["records"] != len(recs):
+        raise vlib.ToolError("C38val did not evaluate all %d records" % len(recs))
+    return [v for v in verdicts if not v.get("summary")], summary[0]
+
+
+def replay(prop, path):
+    """re-run one recorded allocation sequence in its channel and let TLC judge it again"""
+    with open(path) as fh:
+        r = json.load(fh)
+    case = r["case"]
+    wd = vlib.workdir(prop + "_replay")
+    utilchan.prepare(case["channel"], wd)
+    obs, _ = utilchan.run(case["channel"], [case], wd, "replay", jobs=1, case_timeout=120.0, startup=300.0,
+                          isolate=(case["channel"] == "native"))
+    verdicts, _ = _validate(wd, [_record(case, case["channel"], obs[0])])
+    print(json.dumps({"observed": obs[0], "verdict": verdicts}, indent=1)[:6000])
+    if verdicts:
+        print("VIOLATION property=%s replay=%s" % (prop, path))
+        return 1
+    return 0
+
+
+utilchan.install_replay("C38", replay)
+
+
 def run(prop, tier, seed):
     rep = vlib.Report(prop, tier, seed, "model_checking")
     wd = vlib.workdir(prop)
     quick = tier == "quick"
     rnd = random.Random(seed)
     t = {}
-    errors = []
 
-    def bg(fn):
-        def wrapped():
-            try:
-                fn()
-            except Exception as e:  # noqa
-                errors.append(e)
-        th = threading.Thread(target=wrapped)
-        th.start()
-        return th
-
-    # ---- 1. design-level model checking (background)
+    # ---- 1. design-level model checking (one tool at a time: shared machine)
+    t0 = time.time()
     mc = {}
-
-    def model_check():
-        t0 = time.time()
-        mc["aligned"] = _mc("C38mc_aswritten_aligned.cfg", 1, 600)
-        mc["inbounds"] = _mc("C38mc_aswritten_inbounds.cfg", 1, 600)
-        mc["disjoint"] = _mc("C38mc_aswritten_disjoint.cfg", 2, 600)
-        mc["rep"] = _mc("C38mc_repaired.cfg" if quick else "C38mc_repaired_thorough.cfg", 3 if quick else 8, 1500)
-        t["model_checking_s"] = round(time.time() - t0, 1)
-    th_mc = bg(model_check)
+    mc["aligned"] = _mc("C38mc_aswritten_aligned.cfg", 1, 600)
+    mc["inbounds"] = _mc("C38mc_aswritten_inbounds.cfg", 1, 600)
+    mc["disjoint"] = _mc("C38mc_aswritten_disjoint.cfg", 2, 600)
+    mc["rep"] = _mc("C38mc_repaired.cfg" if quick else "C38mc_repaired_thorough.cfg", 2, 1500)
+    if not quick:
+        mc["deep"] = _mc("C38mc_repaired_deep.cfg", 2, 900)      # 6 allocations over a reduced type alphabet
+    t["model_checking_s"] = round(time.time() - t0, 1)
+    cex = {}
+    for name in ("aligned", "inbounds", "disjoint"):
+        r = mc[name]
+        if not r.violation:
+            vlib.tlc_ok(r, "C38mc as written / " + name)
+        cex[name] = {"violation_found": bool(r.violation), "distinct_states": r.distinct,
+                     "counterexample": (r.cases() or [None])[0]}
+    reps = [mc[n] for n in ("rep", "deep") if n in mc]
+    for r in reps:
+        vlib.tlc_ok(r, "C38mc repaired")
+        if r.violation:
+            raise vlib.ToolError("the repaired allocator model violates the property: the reference is broken")
 
     # ---- 2. allocation sequences
     t0 = time.time()
-    ex, res1 = _gen(prop, "C38.cfg" if quick else "C38_thorough.cfg", 2 if quick else 6, 900)
+    ex, res1 = _gen(prop, "C38.cfg" if quick else "C38_thorough.cfg", 2, 900)
     sim, res2 = _gen(prop, "C38_sim.cfg", 1, 900, simulate=(20 if quick else 150), seed=seed)
     cases, seen = [], set()
     for c in ex + sim:
@@ -95,36 +130,26 @@ def run(prop, tier, seed):
     # ---- 3. replay
     results = {}
     t0 = time.time()
+    utilchan.build_asan()
+    results["asan"] = (cases,) + utilchan.run("asan", cases, wd, "asan", jobs=4, case_timeout=2.0)
+    # natively an out-of-bounds write corrupts the heap of the replay process itself and nothing stops it: one process
+    # per sequence, so that a crash is attributed to the sequence that caused it
+    results["native"] = (cases,) + utilchan.run("native", cases, wd, "native", jobs=4, case_timeout=5.0, isolate=True)
 
     def predicted_ub(c):
         return any(a["oob"] for a in c["aw"]) or any(x["align"] > 1 for x in c["allocs"])
 
-    def miri():
-        utilchan.build_miri(wd)
-        ths = []
-        # Miri dies at the first UB and starts slowly: a seed-chosen sample; sequences for which the as-written model
-        # predicts trouble go last in their shard (scheduling only)
-        safe_pool = sorted([c for c in cases if not predicted_ub(c)], key=lambda c: c["id"])
-        risky_pool = sorted([c for c in cases if predicted_ub(c)], key=lambda c: c["id"])
-        plan = {"miri-tb": (6 if quick else 12, 2 if quick else 10, 1 if quick else 4),
-                "miri-tb-noalign": (4 if quick else 10, 1 if quick else 6, 1 if quick else 4)}
-        for mode, (jobs, spj, rpj) in plan.items():
-            mc_cases = rnd.sample(safe_pool, min(jobs * spj, len(safe_pool))) + rnd.sample(risky_pool, min(jobs * rpj, len(risky_pool)))
-
-            def one(mode=mode, mc_cases=mc_cases, jobs=jobs):
-                results[mode] = (mc_cases,) + utilchan.run(mode, mc_cases, wd, mode, jobs=jobs, case_timeout=60.0, startup=240.0)
-            ths.append(bg(one))
-        for th in ths:
-            th.join()
-    th_miri = bg(miri)
-
-    utilchan.build_asan()
-    results["asan"] = (cases,) + utilchan.run("asan", cases, wd, "asan", jobs=8, case_timeout=2.0)
-    # natively an out-of-bounds write corrupts the heap of the replay process itself: every sequence runs in its own process
-    # group of at most 50 so that a crash costs little; sequences where the as-written model predicts such a write go last
-    nat = sorted(cases, key=lambda c: any(a["oob"] for a in c["aw"]))
-    results["native"] = (nat,) + utilchan.run("native", nat, wd, "native", jobs=8, case_timeout=1.0)
-    th_miri.join()
+    # Miri dies at the first UB and starts slowly: a seed-chosen sample; sequences for which the as-written model
+    # predicts trouble go last in their shard (scheduling only)
+    utilchan.build_miri(wd)
+    safe_pool = sorted([c for c in cases if not predicted_ub(c)], key=lambda c: c["id"])
+    risky_pool = sorted([c for c in cases if predicted_ub(c)], key=lambda c: c["id"])
+    plan = {"miri-tb": (4 if quick else 12, 2 if quick else 10, 1 if quick else 4),
+            "miri-tb-noalign": (3 if quick else 10, 1 if quick else 6, 1 if quick else 4)}
+    for mode, (jobs, spj, rpj) in plan.items():
+        mc_cases = rnd.sample(safe_pool, min(jobs * spj, len(safe_pool))) + \
+            rnd.sample(risky_pool, min(jobs * rpj, len(risky_pool)))
+        results[mode] = (mc_cases,) + utilchan.run(mode, mc_cases, wd, mode, jobs=jobs, case_timeout=60.0, startup=240.0)
     t["replay_s"] = round(time.time() - t0, 1)
 
     # ---- 4. validation by TLC
@@ -141,19 +166,10 @@ def run(prop, tier, seed):
             chan[ch]["runs"] += 1
             chan[ch]["steps"] += len(r["steps"])
             chan[ch]["done"] += 1 if r["status"] == "done" else 0
-    obs_path = os.path.join(wd, "observations.ndjson")
-    vlib.write_ndjson(obs_path, recs)
-    val = vlib.tlc(os.path.join(P, "C38val.tla"), env={"OBS": obs_path}, timeout=900, xmx="6g")
-    vlib.tlc_ok(val, "C38val")
-    verdicts = val.cases()
-    summary = [v for v in verdicts if v.get("summary")]
-    if not summary or summary[0]["records"] != len(recs):
-        raise vlib.ToolError("C38val did not evaluate all %d records" % len(recs))
+    verdicts, summary0 = _validate(wd, recs)
     t["validate_s"] = round(time.time() - t0, 1)
     filed = collections.Counter()
     for v in verdicts:
-        if v.get("summary"):
-            continue
         c, o = case_of[(v["id"], v["channel"])]
         keys = []
         for x in v["viol"]:
@@ -163,52 +179,40 @@ def run(prop, tier, seed):
             chan[v["channel"]]["deviations"][key] += 1
             filed[key] += 1
             if filed[key] > 3:
-                continue
-            mism = [{"field": "%s@%d" % (x["pred"], x["k"]), "want": "holds", "got": x["detail"]} for x in v["viol"] if x["key"] == key]
+                continue        # same defect family: counted in coverage.channels, three replay files are enough
+            mism = [{"field": "%s@%d" % (x["pred"], x["k"]), "want": "holds", "got": x["detail"]}
+                    for x in v["viol"] if x["key"] == key]
             first = mism[0]
-            rep.finding(key, {"id": c["id"], "kind": "arena", "cap": c["cap"], "allocs": c["allocs"], "aw": c["aw"],
-                              "channel": v["channel"]},
+            rep.finding(key, dict(c, channel=v["channel"]),
                         {"status": o["status"], "ub": o.get("ub"), "steps": o["steps"]}, mism,
                         "Arena %s (%s): %s %s" % (c["id"], v["channel"], first["field"], first["got"]))
-
-    th_mc.join()
-    if errors:
-        e = errors[0]
-        raise e if isinstance(e, vlib.ToolError) else vlib.ToolError("background task failed: %r" % (e,))
-    cex = {}
-    for name in ("aligned", "inbounds", "disjoint"):
-        r = mc[name]
-        if not r.violation:
-            vlib.tlc_ok(r, "C38mc as written / " + name)
-        cex[name] = {"violation_found": bool(r.violation), "distinct_states": r.distinct,
-                     "counterexample": (r.cases() or [None])[0]}
-    vlib.tlc_ok(mc["rep"], "C38mc repaired")
-    if mc["rep"].violation:
-        raise vlib.ToolError("the repaired allocator model violates the property: the reference is broken")
 
     total = len(recs)
     sizes = collections.Counter("%da%d" % (a["size"], a["align"]) for c in cases for a in c["allocs"])
     rep.coverage = {
-        "states": mc["rep"].distinct + res1.distinct + res2.generated + sum(mc[n].distinct for n in ("aligned", "inbounds", "disjoint")),
-        "transitions": mc["rep"].generated + res1.generated + res2.generated,
+        "states": sum(r.distinct for r in reps) + res1.distinct + res2.generated
+                  + sum(mc[n].distinct for n in ("aligned", "inbounds", "disjoint")),
+        "transitions": sum(r.generated for r in reps) + res1.generated + res2.generated,
         "traces_validated_against_impl": total,
         "evaluations": total,
         "distinct_nontrivial": sum(1 for c in cases if len({(a["size"], a["align"]) for a in c["allocs"]}) >= 2),
         "rule": "allocation sequences = all sequences of (size, align) requests up to the configured length over %d types and "
                 "%d initial capacities enumerated by TLC (exhaustive part: %d), plus seed-%d random sequences of length 6 (%d); "
-                "distinct = distinct (capacity, sequence); non-trivial = at least two different (size, align) types; each is replayed "
-                "under ASan and natively, a seed-chosen sample under Miri; all observations are judged by TLC (C38val.tla)"
-                % (len(sizes), len({c["cap"] for c in cases}), len(ex), seed, len(sim)),
+                "distinct = distinct (capacity, sequence); non-trivial = at least two different (size, align) types; each is "
+                "replayed under ASan and natively (own process), a seed-chosen sample under Miri; all observations are judged "
+                "by TLC (C38val.tla)" % (len(sizes), len({c["cap"] for c in cases}), len(ex), seed, len(sim)),
         "sequences": len(cases), "exhaustive_part": len(ex), "random_part": len(sim),
         "requests_by_type": dict(sizes),
         "sequences_with_buffer_switch": sum(1 for c in cases if len({a["buf"] for a in c["aw"]}) > 1),
         "sequences_aswritten_model_predicts_oob": sum(1 for c in cases if any(a["oob"] for a in c["aw"])),
         "sequences_with_align_gt_1": sum(1 for c in cases if any(a["align"] > 1 for a in c["allocs"])),
-        "sequences_with_alloc_larger_than_buffer": sum(1 for c in cases if any(x["size"] > a["buflen"] // 2 and a["buf"] > 1 for x, a in zip(c["allocs"], c["aw"]))),
+        "allocations_larger_than_previous_buffer": sum(
+            1 for c in cases for i, (x, a) in enumerate(zip(c["allocs"], c["aw"]))
+            if i > 0 and a["buf"] != c["aw"][i - 1]["buf"] and x["size"] > c["aw"][i - 1]["buflen"]),
         "design_model": {"as_written": cex,
-                         "repaired": {"distinct_states": mc["rep"].distinct, "states_generated": mc["rep"].generated,
-                                      "depth": mc["rep"].depth, "invariants_hold": not mc["rep"].violation}},
-        "validation": summary[0],
+                         "repaired": [{"distinct_states": r.distinct, "states_generated": r.generated,
+                                       "allocations": r.depth - 1, "invariants_hold": not r.violation} for r in reps]},
+        "validation": summary0,
         "channels": {ch: {"runs": v["runs"], "steps_observed": v["steps"], "completed": v["done"],
                           "deviations_by_key": dict(v["deviations"])} for ch, v in chan.items()},
         "timing": t,
